@@ -207,13 +207,15 @@ CLAIMED = {
         "generated path; each reported rename is a guarded call (C01/C06: it moves exactly its source onto a path that "
         "did not exist). Free plans succeed (free_plan_succeeds_name_mode): in name mode on link-free trees, for every "
         "file list, order, strategy and scripted stop/ignore/override answers, a plan whose destinations are pairwise "
-        "different and absent from the initial tree ends successfully in the REAL renamer model, having reported exactly "
+        "different and free at their turn - absent from the initial tree, or the path of an earlier file that has been "
+        "renamed away (an acyclic chain visited from its far end) - ends successfully in the REAL renamer model, having reported exactly "
         "the planned renames in processing order (proved for the dry-run renamer by set algebra and transferred through "
         "the C05 simulation). The plan applied (free_plan_applied_name_mode): for the same plans the final tree of the "
         "real renamer model consists exactly of the initial entries, each with its identity, kind and content, the "
         "selected ones at their generated paths and every other one where it was - nothing added, lost or moved "
         "besides (induction over the real run with the exact effect of renaming a leaf, renameAbs_leaf / "
-        "name_call_effect). Partial: plans that are not free (uniformly ordered chains, cycles), path and directory "
+        "name_call_effect). Partial: plans that are not free in this sense (chains visited from the near end, which need the "
+        "retry pass; cycles), path and directory "
         "mode and trees with symbolic links are NOT covered by these theorems; they are decided by the oracle on every "
         "function from <=3 (quick) / <=4 (thorough) files into a name universe in every order "
         "(exhaustive, labelled as a test) and on random multi-root runs in all modes, with the final tree compared "
